@@ -1,14 +1,15 @@
 (* C12 -- results do not depend on position, orientation or unit of length.  Statements only;
-   proofs in Lemmas/Equivariance.v.  What is proved: the exact quantities every operator is
-   built from commute with the maps (crossing parameters under EVERY invertible affine map,
-   Bezier evaluation, region classification under translations and positive scalings, areas by
-   the determinant, moments by the documented powers), and the absolute tolerances are exactly
-   the scale dependence (pt_eq under scaling compares with tol/k).  The operator pipeline as a
-   whole (T(A) op T(B) vs T(A op B)) is checked by correspondence/oracle on transformed cases;
-   rotations of the region test are not proved (the vertical-ray count is not rotation
-   invariant edge by edge: C12_ray_not_rotation_invariant) -- partial. *)
+   proofs in Lemmas/Equivariance.v, Lemmas/Constancy.v, Lemmas/Affine.v.  What is proved: the
+   exact quantities every operator is built from commute with the maps (crossing parameters under
+   EVERY invertible affine map, Bezier evaluation, the region classification of the specification
+   under EVERY orientation-preserving affine map -- translations, rotations, scalings, shears --,
+   areas by the determinant, moments by the documented powers), and the absolute tolerances are
+   exactly the scale dependence (pt_eq under scaling compares with tol/k).  The vertical-ray count
+   is not rotation invariant edge by edge (C12_ray_not_rotation_invariant); its sum over a closed
+   chain is.  The operator pipeline as a whole (T(A) op T(B) vs T(A op B)) is checked by
+   correspondence/oracle on transformed cases -- partial. *)
 From Coq Require Import List.
-From SV Require Import Spec.Spec Lemmas.Quadrature Lemmas.Equivariance.
+From SV Require Import Spec.Spec Lemmas.Quadrature Lemmas.Equivariance Lemmas.Affine.
 Open Scope Q_scope.
 
 Theorem C12_crossing_parameters : forall m11 m12 m21 m22 v f, aff_map m11 m12 m21 m22 v f ->
@@ -30,6 +31,24 @@ Theorem C12_region : forall sx sy v f, 0 < sx -> 0 < sy -> diag_map sx sy v f ->
   forall s p, chains_ok (jordans s) -> region (map_points f s) (f p) = region s p.
 Proof. exact region_diag. Qed.
 Print Assumptions C12_region.
+
+(* ... and under EVERY orientation-preserving affine map, in particular every rotation: the region
+   classification of the specification does not depend on position, orientation or unit of length
+   (proof: every matrix of positive determinant is a product of shears, positive scalings and quarter
+   turns; the quarter turn is handled by a telescoping identity over the closed chain) *)
+Theorem C12_region_affine : forall m11 m12 m21 m22 v f s p, aff_map m11 m12 m21 m22 v f ->
+  0 < adet m11 m12 m21 m22 -> chains_ok (jordans s) -> region (map_points f s) (f p) = region s p.
+Proof. exact region_affine. Qed.
+Theorem C12_region_rotation : forall c s sh p, c * c + s * s == 1 -> chains_ok (jordans sh) ->
+  region (map_points (rot_pt c s) sh) (rot_pt c s p) = region sh p.
+Proof. exact region_rot_pt. Qed.
+Print Assumptions C12_region_affine.
+(* a reflection (det < 0) exchanges In and Out of a curve unless its direction is reversed too *)
+Theorem C12_region_reflection : forall m11 m12 m21 m22 v f j p, aff_map m11 m12 m21 m22 v f ->
+  adet m11 m12 m21 m22 < 0 -> nonempty_segs j -> closed_chain j = true -> ~ shoelace2 j == 0 ->
+  region_simple (reverse (map (map f) j)) (f p) = region_simple j p.
+Proof. exact region_simple_reflect. Qed.
+Print Assumptions C12_region_reflection.
 
 (* areas scale by the determinant (the square of the factor for a similarity) *)
 Theorem C12_area : forall m11 m12 m21 m22 v f, aff_map m11 m12 m21 m22 v f ->
